@@ -385,6 +385,10 @@ def _outside(spans, plen):
 def fm_call(m, act, args):
     from cogent3.core.location import FeatureMap
 
+    if act == "Denote":
+        return m
+    if act == "Coords":
+        return m.get_coordinates()
     if act == "Covered":
         return m.covered()
     if act == "Inverse":
